@@ -18,39 +18,6 @@ Definition store_ok (s : store) (lf : nat) : Prop :=
 Lemma sread_lt (s : store) l o : sread s l = Some o -> l < length s.
 Proof. unfold sread. intros H. apply nth_error_Some. congruence. Qed.
 
-Theorem copy_pure (s : store) (lf : nat) s' lf' (ms : list mutation) :
-  store_ok s lf -> store_copy s lf = Some (s', lf') ->
-  observe (fold_left (fun st m => store_mutate st lf' m) ms s') lf = observe s lf.
-Proof.
-  intros (lv & lc & lx & ld & v & c & x & dd & Hf & Hv & Hc & Hx & Hd & Hdd) H.
-  unfold store_copy in H. rewrite Hf, Hv, Hc, Hx, Hd in H. unfold alloc in H. cbn in H.
-  inversion H; subst s' lf'; clear H.
-  set (n := length s).
-  repeat rewrite <- app_assoc. cbn [app]. repeat rewrite app_length. cbn [length]. fold n.
-  replace (n + 1 + 1 + 1) with (n + 3) by lia. replace (n + 1 + 1) with (n + 2) by lia.
-  set (s0 := s ++ [OVars v; OCard c; OVals x; ODict dd; OFactor n (n + 1) (n + 2) (n + 3)]).
-  replace (n + 1 + 1 + 1 + 1) with (n + 4) by lia.
-  (* invariant of the mutation sequence *)
-  assert (Inv : forall st, (forall k, k < n -> nth_error st k = nth_error s k) ->
-                 nth_error st (n + 4) = Some (OFactor n (n + 1) (n + 2) (n + 3)) ->
-                 observe (fold_left (fun st m => store_mutate st (n + 4) m) ms st) lf = observe s lf).
-  { induction ms as [|m ms IH]; intros st Hlow Hobj.
-    - cbn [fold_left]. unfold observe, sread.
-      rewrite (Hlow lf) by (apply (sread_lt s lf _ Hf)). fold (sread s lf). rewrite Hf.
-      rewrite (Hlow lv) by (apply (sread_lt s lv _ Hv)). rewrite (Hlow lc) by (apply (sread_lt s lc _ Hc)).
-      rewrite (Hlow lx) by (apply (sread_lt s lx _ Hx)). rewrite (Hlow ld) by (apply (sread_lt s ld _ Hd)).
-      fold (sread s lv) (sread s lc) (sread s lx) (sread s ld). rewrite Hv, Hc, Hx, Hd.
-      f_equal. f_equal. apply map_ext_in. intros p Hp. f_equal. apply Hlow. apply Hdd. exact Hp.
-    - cbn [fold_left]. apply IH.
-      + intros k Hk. unfold store_mutate, sread. rewrite Hobj.
-        destruct m; unfold swrite; rewrite nth_error_set_nth_other by lia; apply Hlow; exact Hk.
-      + unfold store_mutate, sread. rewrite Hobj.
-        destruct m; unfold swrite; rewrite nth_error_set_nth_other by lia; exact Hobj. }
-  apply Inv.
-  - intros k Hk. unfold s0. apply nth_error_app1. exact Hk.
-  - unfold s0. rewrite nth_error_app2 by lia. replace (n + 4 - length s) with 4 by (unfold n; lia). reflexivity.
-Qed.
-
 (* ---- FactorSet.product out of place: all member factors are copied ---------------------------- *)
 Lemma observe_prefix (s st : store) lf : store_ok s lf ->
   (forall k, k < length s -> nth_error st k = nth_error s k) -> observe st lf = observe s lf.
@@ -70,6 +37,19 @@ Definition jinv (s : store) (st : store) : Prop :=
   forall l lv lc lx ld, length s <= l -> nth_error st l = Some (OFactor lv lc lx ld) ->
     length s <= lv /\ length s <= lc /\ length s <= lx /\ length s <= ld.
 
+Lemma copy_states_ext : forall dd (s0 : store) s' dd', copy_states s0 dd = (s', dd') ->
+  exists news, s' = s0 ++ news /\ forall o, In o news -> exists x, o = OStates x.
+Proof.
+  induction dd as [|[v l] r IH]; intros s0 s' dd' H; cbn [copy_states] in H.
+  - inversion H; subst. exists []. split; [rewrite app_nil_r; reflexivity|intros o []].
+  - unfold alloc in H.
+    set (o := match sread s0 l with Some (OStates x) => OStates x | _ => OStates [] end) in *.
+    destruct (copy_states (s0 ++ [o]) r) as [s2 r'] eqn:E. inversion H; subst s' dd'.
+    destruct (IH _ _ _ E) as (news & Hs & Hn). exists (o :: news). split.
+    + rewrite Hs, <- app_assoc. reflexivity.
+    + intros o' [<-|Ho']; [|apply Hn; exact Ho']. unfold o. destruct (sread s0 l) as [[| | | |x|]|]; eexists; reflexivity.
+Qed.
+
 Lemma jinv_copy s s0 lf s1 lf' : jinv s s0 -> store_copy s0 lf = Some (s1, lf') -> jinv s s1 /\ length s <= lf'.
 Proof.
   intros (H1 & H2 & H3) H. unfold store_copy in H.
@@ -78,14 +58,21 @@ Proof.
   destruct (sread s0 lc) as [[|c| | | |]|]; try discriminate.
   destruct (sread s0 lx) as [[| |x| | |]|]; try discriminate.
   destruct (sread s0 ld) as [[| | |dd| |]|]; try discriminate.
+  destruct (copy_states s0 dd) as [sa dd'] eqn:Ec.
+  destruct (copy_states_ext dd s0 sa dd' Ec) as (news & Hsa & Hnews).
   unfold alloc in H. cbn in H. inversion H; subst s1 lf'; clear H.
   repeat rewrite <- app_assoc. cbn [app]. repeat rewrite app_length. cbn [length].
-  set (m := length s0) in *. split; [|lia].
+  set (m := length sa) in *.
+  assert (Hm : length s0 <= m) by (unfold m; rewrite Hsa, app_length; lia).
+  split; [|lia].
   split; [|split].
-  - intros k Hk. rewrite nth_error_app1 by lia. apply H1. exact Hk.
+  - intros k Hk. rewrite nth_error_app1 by lia. rewrite Hsa. rewrite nth_error_app1 by lia. apply H1. exact Hk.
   - rewrite app_length. cbn [length]. lia.
   - intros l a b c0 d0 Hl Hn. destruct (Nat.lt_ge_cases l m) as [Hlt|Hge].
-    + rewrite nth_error_app1 in Hn by exact Hlt. apply (H3 l a b c0 d0 Hl Hn).
+    + rewrite nth_error_app1 in Hn by exact Hlt. rewrite Hsa in Hn.
+      destruct (Nat.lt_ge_cases l (length s0)) as [Hlt0|Hge0].
+      * rewrite nth_error_app1 in Hn by exact Hlt0. apply (H3 l a b c0 d0 Hl Hn).
+      * rewrite nth_error_app2 in Hn by exact Hge0. apply nth_error_In in Hn. destruct (Hnews _ Hn) as [x0 Hx0]. discriminate.
     + rewrite nth_error_app2 in Hn by exact Hge. fold m in Hn.
       destruct (l - m) as [|[|[|[|[|k]]]]] eqn:E; cbn in Hn; try discriminate.
       * inversion Hn; subst. lia.
@@ -142,4 +129,17 @@ Proof.
     - intros q Hq. apply Hms. right. exact Hq.
     - apply jinv_mutate; [exact Jst|]. apply Hnew. apply Hms. left. reflexivity. }
   apply observe_prefix; [apply Hok; exact Hlf|]. apply (Jf s' J).
+Qed.
+
+(* copy() of a single factor: a special case *)
+Theorem copy_pure (s : store) (lf : nat) s' lf' (ms : list mutation) :
+  store_ok s lf -> store_copy s lf = Some (s', lf') ->
+  observe (fold_left (fun st m => store_mutate st lf' m) ms s') lf = observe s lf.
+Proof.
+  intros Hok H.
+  assert (J0 : jinv s s) by (split; [reflexivity|split; [lia|intros l lv lc lx ld Hl Hn; exfalso; assert (Hnone : nth_error s l = None) by (apply nth_error_None; exact Hl); congruence]]).
+  destruct (jinv_copy s s lf s' lf' J0 H) as [J Hl].
+  assert (Jf : forall st, jinv s st -> jinv s (fold_left (fun st m => store_mutate st lf' m) ms st)).
+  { clear - Hl. induction ms as [|m ms IH]; intros st Jst; [exact Jst|]. cbn [fold_left]. apply IH. apply jinv_mutate; assumption. }
+  apply observe_prefix; [exact Hok|]. apply (Jf s' J).
 Qed.
